@@ -58,8 +58,11 @@ func extractEmbeddedElems(
 
 		switch e := evaluated.(type) {
 		case *object.PanMap:
-			for _, pair := range *e.Pairs {
-				pairs = append(pairs, pair)
+			// NOTE: scalar keys are unpacked in insertion order (iteration order of Go map is random)
+			for _, hash := range *e.HashKeys {
+				if pair, ok := (*e.Pairs)[hash]; ok {
+					pairs = append(pairs, pair)
+				}
 			}
 			for _, nPair := range *e.NonHashablePairs {
 				if !existsNonHashableKey(env, nonHashablePairs, nPair) {
@@ -70,8 +73,16 @@ func extractEmbeddedElems(
 			}
 
 		case *object.PanObj:
-			for _, pair := range *e.Pairs {
-				pairs = append(pairs, pair)
+			// NOTE: props are unpacked in order of keys (iteration order of Go map is random)
+			for _, hash := range *e.Keys {
+				if pair, ok := (*e.Pairs)[hash]; ok {
+					pairs = append(pairs, pair)
+				}
+			}
+			for _, hash := range *e.PrivateKeys {
+				if pair, ok := (*e.Pairs)[hash]; ok {
+					pairs = append(pairs, pair)
+				}
 			}
 
 		default:
